@@ -63,6 +63,23 @@ pub struct Wire {
     pub nonce: u64,
 }
 
+impl Op {
+    /// Fact-name indexes must name one of `NAMES` (a garbled body can decode to anything).
+    fn well_formed(&self) -> bool {
+        let ok = |n: &u8| usize::from(*n) < NAMES.len();
+        match self {
+            Op::Init | Op::Merge | Op::NoOp => true,
+            Op::Put { name, .. } | Op::Del { name, .. } | Op::Digest { name, .. } | Op::CopyIf { name, .. } | Op::Guard { name, .. } | Op::Poison { name, .. } => ok(name),
+        }
+    }
+}
+
+/// The one place command bodies are decoded: policy and model agree on what is unparsable.
+pub fn parse_wire(bytes: &[u8]) -> Option<Wire> {
+    let w: Wire = postcard::from_bytes(bytes).ok()?;
+    w.op.well_formed().then_some(w)
+}
+
 /// An owned command. Fields are explicit so the harness can craft inconsistent shapes.
 #[derive(Clone, Debug, PartialEq, Eq)]
 pub struct DagCmd {
@@ -87,7 +104,7 @@ impl DagCmd {
     }
 
     pub fn wire(&self) -> Option<Wire> {
-        postcard::from_bytes(&self.bytes).ok()
+        parse_wire(&self.bytes)
     }
 
     pub fn address(&self) -> Address {
@@ -479,7 +496,7 @@ impl DagPolicy {
         sink: &mut impl Sink<Eff>,
         place: Place,
     ) -> Result<(), PolicyError> {
-        let wire: Option<Wire> = postcard::from_bytes(bytes).ok();
+        let wire: Option<Wire> = parse_wire(bytes);
         let (want, deep, probe_keys) = {
             let mut l = self.log.borrow_mut();
             let w = l.want_dump();
